@@ -28,6 +28,9 @@ def model_apply(ref, op):
     elif kind == "persist":
         _, si, d, seq, tag = op
         ref.persist(si, d, seq, msg_bytes(seq, tag))  # no-op if the number is already stored
+    elif kind == "replace":
+        _, si, d, seq, tag = op
+        ref.replace(si, d, seq, msg_bytes(seq, tag))
     elif kind == "set":
         _, si, nout, nin = op
         ref.set_seq(si, nout, nin)
@@ -54,6 +57,9 @@ def real_apply(j, sessions, keys, op):
                 sessions[si].next_num_in = seq + 1
         except DuplicateSeqNoError:
             pass
+    elif kind == "replace":
+        _, si, d, seq, tag = op
+        j.persist_msg(msg_bytes(seq, tag), sessions[si], d, replace=True)
     elif kind == "set":
         _, si, nout, nin = op
         j.set_seq_num(sessions[si], next_num_out=nout, next_num_in=nin)
@@ -134,6 +140,8 @@ def h_crash(I, plan, lo, hi, slot_lo=1, slot_hi=MAXSLOT):
             ops.append(("load", I.choice(f"sess{k}", 2)))
         elif p == "persist":
             ops.append(("persist", I.choice(f"sess{k}", 2), DIRS[I.choice(f"dir{k}", 2)], I.int(f"seq{k}", lo, hi), "r%d" % k))
+        elif p == "replace":
+            ops.append(("replace", I.choice(f"sess{k}", 2), DIRS[I.choice(f"dir{k}", 2)], I.int(f"seq{k}", lo, hi), "R%d" % k))
         elif p == "set":
             mode = I.choice(f"mode{k}", 3)
             nout = I.int(f"new_out{k}", 1, hi + 1) if mode in (0, 1) else None
@@ -187,10 +195,11 @@ def cells(tier):
     lo, hi = (10, 99)
     stub = stubcheck.run()
     plans = [("persist",), ("set",), ("persist", "set"), ("set", "persist"), ("persist", "persist"), ("persist", "reset"),
-             ("reload", "persist"), ("persist", "reload", "persist")]
+             ("reload", "persist"), ("persist", "reload", "persist"), ("persist", "replace")]
     if not quick:
         plans += [("reload", "set", "persist"), ("persist", "persist", "set"), ("persist", "set", "persist"), ("set", "persist", "persist"),
-                  ("persist", "set", "set"), ("reset", "persist", "set"), ("persist", "persist", "persist", "set")]
+                  ("persist", "set", "set"), ("reset", "persist", "set"), ("persist", "persist", "persist", "set"),
+                  ("persist", "replace", "persist"), ("persist", "persist", "replace")]
     out = []
     shards = [(1, 14), (15, 20), (21, 26), (27, MAXSLOT)]
     for pl in plans:
